@@ -137,6 +137,48 @@ func structuredAll(thorough bool) []string {
 			}
 		}
 	}
+	// characters the Unicode tables class as digits / letters / spaces but the
+	// ASCII-minded parts of a lexer do not, at every kind of position
+	for _, u := range []string{"٣", "１", "௧", "൩", "𝟙", "²", "Ⅷ", "\u00a0", "\u2028", "\u200b", "é", "ǅ", "\ufeff"} {
+		out = append(out,
+			u+"\n",
+			"counter c\n"+u+"\n",
+			"counter c\n"+u+" {\n c++\n}\n",
+			"counter c\n/x/ {\n "+u+"\n}\n",
+			"counter c\n/x/ {\n c = "+u+"\n}\n",
+			"counter c\n/x/ {\n c = 1"+u+"\n}\n",
+			"counter c\n/x/ {\n c = "+u+"1\n}\n",
+			"counter c\n/x/ {\n c = 1."+u+"\n}\n",
+			"counter c by k\n/x/ {\n c["+u+"]++\n}\n",
+			"counter c by k\n/x/ {\n del c[\"a\"] after "+u+"h\n}\n",
+			"counter c by k\n/x/ {\n del c[\"a\"] after 1"+u+"\n}\n",
+			"counter c by k limit "+u+"\n",
+			"histogram h buckets "+u+", 2\n",
+			"counter c"+u+"\n/x/ {\n c"+u+"++\n}\n",
+			"counter "+u+"c\n",
+			"counter c\n/x/ {\n c = $"+u+"\n}\n",
+			"counter c\n@"+u+" {\n}\n",
+			"const "+u+" /a/\n",
+		)
+	}
+	// every short token the lexer takes for a duration or number
+	for _, a := range []string{"1", "2", "0"} {
+		alpha := []string{"1", "d", "h", "m", "s", "u", ".", "-", "+", "e", "x"}
+		for _, b1 := range alpha {
+			for _, b2 := range append([]string{""}, alpha...) {
+				for _, b3 := range append([]string{""}, alpha...) {
+					if b2 == "" && b3 != "" {
+						continue
+					}
+					tok := a + b1 + b2 + b3
+					out = append(out, "counter c by k\n/x/ {\n del c[\"a\"] after "+tok+"\n}\n")
+					if thorough || len(out)%5 == 0 {
+						out = append(out, "gauge g\n/x/ {\n g = "+tok+"\n}\n")
+					}
+				}
+			}
+		}
+	}
 	// every place a pattern expression can stand x every shape of pattern
 	// expression built from literals, const fragments, strings and numbers
 	patExprs := []string{"P", "P + P", "/a/ + P", "P + /a/", "P + P + P", "(P)", "(P + P)", "P + \"s\"", "\"s\" + P", "\"s\" + \"t\"", "P + 1", "1 + P", "P + 1.5", "/a/ + 1", "/a/ + \"s\"", "\"s\" + /a/", "/a/ + /b/ + P", "P + Q", "Q", "/(/ + P", "P + /)/", "/(/ + /)/", "P + $1", "P + c", "-P", "P - P", "P * 2"}
@@ -617,6 +659,7 @@ func TestC03(t *testing.T) {
 			done++
 		}
 	}
+	confirmedHangs := 0
 	for _, cr := range res.Crashes {
 		if cr.Index < 0 {
 			r.Inconclusive("child died before its first case: " + cr.Log)
@@ -632,6 +675,12 @@ func TestC03(t *testing.T) {
 		}
 		cls := "process-died"
 		if cr.Hang || hangcand[cr.Index] {
+			if confirmedHangs >= 1 {
+				// one confirmed unbounded compile decides the run; the other
+				// candidates are listed, not each re-run for minutes
+				r.Count("hang_candidates_not_rerun", 1)
+				continue
+			}
 			// bounded time: confirm alone, in a fresh process, with a 5x budget
 			if fin, took := runAlone(cr.Index, 5*hangBudget); fin {
 				r.Count("hang_candidates_not_reproduced", 1)
@@ -639,6 +688,7 @@ func TestC03(t *testing.T) {
 				continue
 			}
 			cls = "unbounded-time"
+			confirmedHangs++
 		}
 		r.Violation(cls, map[string]any{"index": cr.Index, "input_quoted": quoteClip(string(cr.Input)), "child_output": tail})
 	}
